@@ -1074,6 +1074,9 @@ class Interp:
             axes = kwargs.get("axes", A(2))
             if axes is None:
                 axes = 2
+            if isinstance(axes, (tuple, list)) and len(axes) == 2 and \
+                    all(isinstance(x, (tuple, list)) and all(isinstance(y, int) for y in x) for x in axes):
+                return ta.a_tensordot_axes(args[0], args[1], list(axes[0]), list(axes[1]))
             if not isinstance(axes, int):
                 self.err(node, "tensordot with non-integer axes")
             return ta.a_tensordot(args[0], args[1], axes)
